@@ -162,6 +162,14 @@ def extend(repo, T, ex):
     ss_stmts = [st for st in ss.body if not (isinstance(st, ast.Expr) and isinstance(st.value, ast.Constant))]
     T["appReconnectGuard"] = bool(ss_stmts) and _reconnect_guard(ss_stmts[0])
 
+    # ---- WebSocketApp.close(): `self.keep_running = False` is the FIRST statement — before the closing handshake, whose wait
+    #      for the server's reply lets the ping thread and other threads run (`Model.App.appClose` clears it first)
+    cl = ex._find(wa.body, ast.FunctionDef, "close")
+    cl_stmts = [st for st in cl.body if not (isinstance(st, ast.Expr) and isinstance(st.value, ast.Constant))] if cl is not None else []
+    first = cl_stmts[0] if cl_stmts else None
+    T["appCloseClearsFirst"] = bool(isinstance(first, ast.Assign) and len(first.targets) == 1 and _is_self_attr(first.targets[0], "keep_running")
+                                    and isinstance(first.value, ast.Constant) and first.value.value is False)
+
     # ---- handleDisconnect(): an exception met while the application is closing (keep_running already False) is not an error
     #      of the run: `if not self.keep_running and not isinstance(e, (KeyboardInterrupt, SystemExit)): teardown(); return`
     #      as the FIRST statement (before has_errored is set and before anything is reported)
